@@ -74,7 +74,8 @@ var redirectNames = map[string]string{
 	"encoding/hex.DecodeString":                           "verifStubHexDecode",
 	"strings.TrimPrefix":                                  "verifStubTrimPrefix",
 	"bytes.Equal":                                         "verifStubBytesEqual",
-	"github.com/NickBall/go-aes-key-wrap.Wrap":            "",
+	"encoding/json.Marshal":                               "verifStubJSONMarshal",
+	"strconv.ParseFloat":                                  "verifStubParseFloat",
 }
 
 var initAllow = map[string]bool{
